@@ -108,6 +108,7 @@ func Client1() *checker.Credentials {
 // NewStack assembles a stack the way main.go does.
 func NewStack(o StackOpts) (*Stack, error) {
 	Init()
+	AlternateLogging()
 	if o.StorageDir == "" {
 		return nil, fmt.Errorf("no storage dir")
 	}
